@@ -11,9 +11,11 @@ from __future__ import annotations
 
 import copy
 import sys
+from contextlib import contextmanager
+from pathlib import Path
 
 from simgriffe import core, pysrc
-from simgriffe.seams import ListingSeam, World
+from simgriffe.seams import ListingSeam, World, _real_read_text
 
 MOD_NAMES = ["f", "g", "C", "D", "x", "y", "imp"]
 CLS_NAMES = ["m", "n", "K", "v"]
@@ -196,14 +198,39 @@ def generate(rng, opts):
             "rt": {"doc": _gen_doc(rng, "rt " + mp), "members": rt} if has_rt else None,
             "st": {"doc": _gen_doc(rng, "st " + mp), "members": st} if has_st else None,
         }
+    if "pkg.a" in modules:
+        # a module importing from itself is not a program CPython can run: spell those imports from the private module
+        for side in ("rt", "st"):
+            if modules["pkg.a"][side]:
+                for m in _all_members(modules["pkg.a"][side]["members"]):
+                    if m.get("from") == "pkg.a":
+                        m["from"] = "pkg._impl"
+    if placement != "single" and rng.random() < 0.15:
+        # stubs declared at the *public* location of a class the runtime package merely re-exports from a private module
+        mp = rng.choice([m for m in modpaths if modules[m]["rt"] is not None] or ["pkg"])
+        sides = modules[mp]
+        if sides["rt"] is not None:
+            if sides["st"] is None:
+                sides["st"] = {"doc": None, "members": []}
+            sides["rt"]["members"] = [m for m in sides["rt"]["members"] if m["name"] != "C"] + [{"k": "import", "name": "C", "from": "pkg._impl", "orig": "C"}]
+            extra = [_gen_member(rng, n, DEFAULT_KIND[n], "st", 1, cfg) for n in rng.sample(["n", "v"], rng.choice([1, 2]))]
+            stub_c = {"k": "class", "name": "C", "doc": None, "bases": [], "members": [{"k": "func", "name": "m", "params": [["self", None, False]], "ret": "int", "doc": None}] + extra}
+            sides["st"]["members"] = [m for m in sides["st"]["members"] if m["name"] != "C"] + [stub_c]
     if placement != "single" and any("pkg._impl" == m.get("from") for mod in modules.values() for side in ("rt", "st") if mod[side] for m in _all_members(mod[side]["members"])):  # incl. star imports
         modules["pkg._impl"] = {"rt": {"doc": None, "members": copy.deepcopy(IMPL_MEMBERS)}, "st": None}
+    compiled = {}
+    if placement != "single" and rng.random() < 0.2:
+        # runtime modules that exist only in compiled form (extension module, sourceless bytecode) next to their stubs:
+        # the main reason packages ship .pyi files.  They are analysed by inspection (see `_source_inspect`).
+        for mp in modpaths:
+            if mp != "pkg" and not any(o.startswith(mp + ".") for o in modpaths) and modules[mp]["rt"] is not None and rng.random() < 0.7:
+                compiled[mp] = rng.choice([".so", ".cpython-312-x86_64-linux-gnu.so", ".pyd", ".pyc"])
     bases = [{"mode": "sorted"}, {"mode": "reversed"}] + [{"mode": "hash", "key": rng.randrange(1 << 30)} for _ in range(2)]
     chosen = rng.sample(bases, rng.choice([1, 1, 2]))
     schedules = [{"base": b, "stub_first": sf} for b in chosen for sf in (False, True)]
     rng.shuffle(schedules)
     return {
-        "world": {"placement": placement, "top": top, "modules": modules, "stubs_other_sp": placement == "stubs_pkg" and rng.random() < 0.5, "stubs_sp_first": rng.random() < 0.5,
+        "world": {"placement": placement, "top": top, "modules": modules, "compiled": compiled, "stubs_other_sp": placement == "stubs_pkg" and rng.random() < 0.5, "stubs_sp_first": rng.random() < 0.5,
                   # looking for a <pkg>-stubs package is an option of the caller, whether or not one exists
                   "find_stubs_package": placement == "stubs_pkg" or rng.random() < 0.3},
         "schedules": schedules,
@@ -241,6 +268,9 @@ def render_world(world):
             else:
                 parts2 = parts
                 target = sp0
+            if side == "rt" and mp in world.get("compiled", {}) and mp not in pkgs:
+                # the file holds the source text: the stand-in inspector analyses it (a real .so cannot be generated)
+                ext = world["compiled"][mp]
             rel = "/".join(parts2) + ("/__init__" if mp in pkgs else "") + ext
             target[rel] = src
     # a package whose __init__ is missing on one side still needs the directory to be a package
@@ -657,6 +687,64 @@ def _first_detached(top):
     return rec(top, top.name)
 
 
+def public_location_stub_members(world):
+    """[(module, impl class name, stub-only member names)] for stub classes declared where the runtime side re-exports a
+    class of pkg._impl - only where the merge happens after the whole package is loaded (top-level module, or a
+    separate stubs package), so that the re-export can be followed."""
+    mods = world["modules"]
+    impl = mods.get("pkg._impl")
+    if not impl or not impl["rt"]:
+        return []
+    impl_by = {m["name"]: m for m in impl["rt"]["members"]}
+    out = []
+    for mp, sides in mods.items():
+        if not (sides["rt"] and sides["st"]) or mp == "pkg._impl":
+            continue
+        if not (mp == world["top"] or world["placement"] == "stubs_pkg"):
+            continue
+        if any(m["k"] == "star" for m in sides["rt"]["members"]):
+            continue
+        for r in sides["rt"]["members"]:
+            if r["k"] != "import" or r.get("from") != "pkg._impl" or r.get("guard"):
+                continue
+            target = impl_by.get(r["orig"])
+            st = next((m for m in sides["st"]["members"] if m["name"] == r["name"]), None)
+            if target is None or st is None or target["k"] != "class" or st["k"] != "class":
+                continue
+            have = {m["name"] for m in target["members"]}
+            # (overloads without an implementation are no members of the stub class either)
+            only = sorted(m["name"] for m in st["members"] if m["name"] not in have and m["k"] != "star" and not (m["k"] == "overloads" and m.get("impl") is None))
+            if only:
+                out.append((mp, r["orig"], only))
+    return out
+
+
+def _source_inspect(module_name, filepath=None, parent=None, lines_collection=None, modules_collection=None, **kwargs):
+    """Stand-in for the inspector (STUB): a compiled module cannot be generated, so the file carries the source text
+    it was 'compiled' from and is analysed statically; the resulting module keeps the compiled file as its path."""
+    import griffe
+
+    if filepath is None or str(filepath).endswith((".py", ".pyi")):
+        raise ImportError(f"stand-in inspector: refusing {module_name} ({filepath})")
+    code = _real_read_text(Path(filepath), encoding="utf8")
+    return griffe.visit(module_name, filepath=Path(filepath), code=code, parent=parent, lines_collection=lines_collection, modules_collection=modules_collection)
+
+
+@contextmanager
+def _inspector_for(world):
+    import _griffe.loader as gl
+
+    if not world.get("compiled"):
+        yield False
+        return
+    orig = gl.inspect
+    gl.inspect = _source_inspect
+    try:
+        yield True
+    finally:
+        gl.inspect = orig
+
+
 def load_runtime_only(griffe, world):
     """The same world without any stubs: what the runtime side alone looks like."""
     files = render_world(world)
@@ -665,7 +753,8 @@ def load_runtime_only(griffe, world):
         return None
     with World([sp0], tag="c19r-") as w:
         try:
-            top = griffe.load(world["top"], search_paths=w.sp_dirs, allow_inspection=False, try_relative_path=False)
+            with _inspector_for(world) as insp:
+                top = griffe.load(world["top"], search_paths=w.sp_dirs, allow_inspection=insp, try_relative_path=False)
         except Exception:  # noqa: BLE001
             return None
         return runtime_facts(w, top)
@@ -686,14 +775,14 @@ def execute(plan, ctx):
             mon = ResolveMonitor()
             ctx.steps += 1
             tree = None
-            with seam.installed(), mon.installed():
+            with seam.installed(), mon.installed(), _inspector_for(world) as insp:
                 try:
                     # the search path holding the stubs package may come before or after the one with the runtime package
                     sps = list(reversed(w.sp_dirs)) if world.get("stubs_sp_first") else w.sp_dirs
                     top = griffe.load(
                         world["top"],
                         search_paths=sps,
-                        allow_inspection=False,
+                        allow_inspection=insp,
                         try_relative_path=False,
                         find_stubs_package=world.get("find_stubs_package", world["placement"] == "stubs_pkg"),
                     )
@@ -730,6 +819,19 @@ def execute(plan, ctx):
                         ctx.fail("D-runtime-altered", f"{path}: runtime facts changed by merging stubs: {f0} -> {f1} (schedule {sched})", tags=tags)
                         return
                 ctx.probe("differential-runtime-facts-compared", len(base_facts))
+            # stub-only members of a class whose stubs sit at its public (re-exporting) location end up in the class
+            for mp, cname, only in public_location_stub_members(world):
+                impl_mod = top.members.get("_impl")
+                cls = impl_mod.members.get(cname) if impl_mod is not None and not impl_mod.is_alias else None
+                if cls is None or cls.is_alias:
+                    continue
+                for n in only:
+                    got = cls.members.get(n)
+                    if got is None or got.runtime is not False:
+                        what = "is lost" if got is None else "is not marked unavailable at runtime"
+                        ctx.fail("M-stub-only-through-reexport", f"{mp}: the stubs declare class {cname} where the runtime re-exports pkg._impl.{cname}; its stub-only member {n!r} {what} (schedule {sched})", tags=tags)
+                        return
+                ctx.probe("stub-only-members-through-reexport-checked", len(only))
             judge_monitor(ctx, mon, world)
             if ctx.failures:
                 return
@@ -746,6 +848,8 @@ def execute(plan, ctx):
             ctx.probe("differs-across-base-orders(C14 matter)")
     n_both = sum(1 for s in world["modules"].values() if s["rt"] and s["st"])
     ctx.probe(f"placement-{world['placement']}")
+    if world.get("compiled"):
+        ctx.probe("compiled-runtime-modules-with-stubs", sum(1 for mp in world["compiled"] if world["modules"][mp]["st"]))
     ctx.probe("modules-with-both-sides", n_both)
     ctx.cover.append((world["placement"], core.hash_key(trees[0][1]) if trees else 0, len(plan["schedules"])))
 
